@@ -27,6 +27,46 @@ def run_battery(seed, tier, variant_env=None):
     return r, lines
 
 
+def glue_stage(ctx, res):
+    from .. import impl
+    from . import c06
+    rng = ctx.rng
+    jobs = []
+    for k in range(120 if ctx.thorough else 40):
+        n = rng.randint(1, 6)
+        ndim = rng.choice([1, 2, 3])
+        series = c06.make_series(rng, n, ndim, rng.random() < 0.5, tagged=False)
+        b = rng.choice(list(c06.all_blocks(n)))
+        kw = {"window": 2} if k % 3 == 0 else {}
+        jobs.append([[[list(map(float, s)) for s in series], ndim, None if b is None else list(b), kw], {}])
+    env = {"PYTHONMALLOC": "debug"}
+    w = impl.run_worker("glue_matrix", jobs, env_extra=env, timeout=900)
+    res.hit("glue_matrix_worker")
+    if w["crashed"]:
+        # find the first call that brings the worker down
+        first = None
+        for job in jobs:
+            w1 = impl.run_worker("glue_matrix", [job], env_extra=env, timeout=300)
+            if w1["crashed"]:
+                first = (job, w1)
+                break
+        job, w1 = first if first else (None, w)
+        res.violations.append({"clause": "the wrapper hands the C routine a buffer of the advertised size (heap guard "
+                                         "bytes intact, no crash)", "call": "dtw_cc(.omp).distance_matrix(_ndim)",
+                               "input": None if job is None else {"series": job[0][0], "ndim": job[0][1],
+                                                                  "block": job[0][2], "kwargs": job[0][3]},
+                               "rc": w1.get("rc"), "stderr": (w1.get("stderr") or "")[-600:]})
+        return
+    for job, out in zip(jobs, w["results"]):
+        res.evaluations += 1
+        res.nontrivial.add(json.dumps(job[0][1:3]) + str(len(job[0][0])))
+        for name, ln in out["got"].items():
+            if ln != out["want"]:
+                res.violations.append({"clause": "the returned buffer has one slot per selected pair", "wrapper": name,
+                                       "input": {"series": job[0][0], "ndim": job[0][1], "block": job[0][2]},
+                                       "length": ln, "selected_pairs": out["want"]})
+
+
 def run(ctx):
     res = Result()
     res.rule = ("battery of direct calls of the exported C routines (distance x4, bounds, warping paths into a compact "
@@ -51,6 +91,8 @@ def run(ctx):
         report = (r.stderr or "")[-3000:]
         res.violations.append({"clause": "no out-of-bounds access / undefined behaviour (ASan+UBSan)",
                                "last_call": last, "sanitizer_report": report, "rc": r.returncode})
+    # the Cython glue: buffers allocated by the dtw_cc / dtw_cc_omp wrappers, under PYTHONMALLOC=debug in a worker
+    glue_stage(ctx, res)
     # red-zone canaries on the plain build (writes of the compact kernel / expansion / slices)
     lib = native.load("plain")
     from .. import dtwcases as dc
